@@ -229,6 +229,32 @@ def cells():
         add("R2", f"final local initialised from the bare field {fld}, then assigned", slot, f"final int t0 = {fld}; t0 = 2;",
             f"final int t0 = {fld}; echo(t0);")
 
+    # R1 on EXPRESSIONS: the static type of an operator application is the documented promotion of its operand types
+    # (int op long -> long, anything op float -> float, '/' -> float, comparisons -> boolean, string + x -> string, unary minus
+    # and casts as written); a narrower declared target must refuse it, the promoted target must accept it
+    EXPR = []
+    for op in ("+", "-", "*", "%"):
+        EXPR += [(f"{{int}} {op} {{long}}", "long", "int"), (f"{{long}} {op} {{int}}", "long", "int")]
+        if op != "%":
+            EXPR += [(f"{{int}} {op} {{float}}", "float", "int"), (f"{{float}} {op} {{long}}", "float", "long"),
+                     (f"{{long}} {op} {{float}}", "float", "long")]
+    EXPR += [("{int} / {int}", "float", "int"), ("{long} / {int}", "float", "long"), ("{int} < {long}", "boolean", "int"),
+             ("{float} >= {int}", "boolean", "float"), ("-{long}", "long", "int"), ("-{float}", "float", "int"),
+             ("(long) {int}", "long", "int"), ("(float) {int}", "float", "int"), ("{string} + {int}", "string", "int"),
+             ("{int} + {string}", "string", "int"), ("{int} == {int}", "boolean", "int")]
+    for ctx in ("MAIN", "ANIMAL_METHOD"):
+        for tmpl, res, narrow in EXPR:
+            e = tmpl.format(**{"int": val("int", ctx), "long": val("long", ctx), "float": val("float", ctx), "string": val("string", ctx)})
+            tag = f"{tmpl.replace('{', '').replace('}', '')} is {res}, not {narrow}"
+            add("R1", f"expression initialiser: {tag}", ctx, f"{narrow} t0 = {e};", f"{res} t0 = {e};")
+            tgt_n, tgt_r = val(narrow, ctx), val(res, ctx)
+            add("R1", f"expression assigned: {tag}", ctx, f"{tgt_n} = {e};", f"{tgt_r} = {e};")
+            if narrow in TAKES and res in TAKES:
+                add("R1", f"expression as argument: {tag}", ctx, f"{TAKES[narrow]}({e});", f"{TAKES[res]}({e});")
+    add("R1", "expression returned: int % long from an int function", "RET_INT", "return 7 % 2L;", "return 7 % 2;", wrap=False)
+    add("R1", "expression returned: long + int from an int function", "RET_INT", "return 2L + 7;", "return 2 + 7;", wrap=False)
+    add("R1", "expression returned: int / int from a long function", "RET_LONG", "return 7 / 2;", "return 7 % 2;", wrap=False)
+
     # R3 visibility
     for slot, who, obj in (("MAIN", "function", "va"), ("FUNC", "function", "pa"), ("OTHER_METHOD", "unrelated class", "a0")):
         for mem, ok in (("priv", "legs"), ("prot", "legs")):
